@@ -9,6 +9,6 @@ import (
 
 func init() {
 	registry["C13"] = entry{run: c13.Run, replay: func(r *monitor.Run, d json.RawMessage) { c13.Replay(r, d) }, level: "exploration",
-		rule: "cases = (validator-accepted configuration, script) pairs over server_receive_maximum {1,2,5,100,65535} x topic_alias_maximum {0,1,5,10,65535} x max_packet_size {64,300,268435456} x max_inflight {1,5,100} (all 225 in thorough, a sample in quick); scripts: inbound alias bind/reuse/rebind at 1, mid, max-1 and max; invalid aliases (max+1, 0, unbound); Receive Maximum open/complete cycles and R+1; packets of exactly P and P+1 bytes; outbound: a v5 subscriber declaring Maximum Packet Size {48,64,200,absent} and Topic Alias Maximum {0,1,3,65535} receives messages sized M-6..M+4 on aliased and fresh topics and keeps the spec's alias table. Every case is non-trivial; distinct by (configuration, script, declared maxima). Plus: outbound limits of a resumed session (incl. messages in flight at the resume), messages too large under any alias choice, 28 directed cases where a new alias crosses two length-field boundaries, 90 directed cases with Subscription Identifiers of every varint width (one and two per packet) at M-8..M+1.",
+		rule: "cases = (validator-accepted configuration, script) pairs over server_receive_maximum {1,2,5,100,65535} x topic_alias_maximum {0,1,5,10,65535} x max_packet_size {64,300,268435456} x max_inflight {1,5,100} (all 225 in thorough, a sample in quick); scripts: inbound alias bind/reuse/rebind at 1, mid, max-1 and max; invalid aliases (max+1, 0, unbound); Receive Maximum open/complete cycles and R+1; packets of exactly P and P+1 bytes; outbound: a v5 subscriber declaring Maximum Packet Size {48,64,200,absent} and Topic Alias Maximum {0,1,3,65535} receives messages sized M-6..M+4 on aliased and fresh topics and keeps the spec's alias table. Every case is non-trivial; distinct by (configuration, script, declared maxima). Plus: outbound limits of a resumed session (incl. messages in flight at the resume), messages too large under any alias choice, 28 directed cases where a new alias crosses two length-field boundaries, 90 directed cases with Subscription Identifiers of every varint width (one and two per packet) at M-8..M+1. 32 directed cases with the remaining length / property length exactly on the varint boundaries (subscriber declaring exactly the packet size and one byte less); sessions created by an MQTT 3.1.1 connection and resumed by an MQTT 5 one that declares maxima.",
 		assumptions: []string{"mqttx.Size gives the wire size", "a message that fits only thanks to alias compression may be delivered or dropped (either accepted)"}}
 }
